@@ -40,6 +40,7 @@ def make_config(rng, profile, tier):
     cfg['name_map'] = mapping
     cfg['order_reversing'] = reverse
     cfg['threads'] = rng.choice([1, 2, 3])
+    cfg['save_iter'] = rng.random() < 0.5
     return cfg
 
 
@@ -107,7 +108,7 @@ class Universe:
         if first:
             self.ll, self.w, self.betas = specs.build_formulas(sess.cfg, name_map=self.map, reverse_terms=self.reverse)
         p = Parameters()
-        p.set_value('save_iterations', False)
+        p.set_value('save_iterations', bool(sess.cfg.get('save_iter')))
         p.set_value('generate_html', False)
         p.set_value('generate_pickle', False)
         p.set_value('number_of_threads', sess.cfg['threads'])
@@ -117,7 +118,7 @@ class Universe:
             forms['weight'] = self.w
         self.db = db.Database('n', sess.table.copy())
         self.b = bio.BIOGEME(self.db, forms, parameters=p)
-        self.b.modelName = 'm'
+        self.b.modelName = 'mB' if self.map else 'mA'
 
     def vec(self, x):
         """x: dict A-name -> value, for the free parameters."""
@@ -310,6 +311,23 @@ class Session:
             e0, e1 = r0.get_beta_values(), r1.get_beta_values()
             p0 = r0.get_estimated_parameters(only_robust=False)
             p1 = r1.get_estimated_parameters(only_robust=False)
+            if self.cfg.get('save_iter'):
+                # values saved for a restart are attached to the right names
+                import os
+                for u, r in ((self.U[0], r0), (self.U[1], r1)):
+                    fn = f'__{u.b.modelName}.iter'
+                    if os.path.exists(fn):
+                        saved = {}
+                        with open(fn, encoding='utf-8') as fh:
+                            for line in fh:
+                                k_, v_ = line.split('=')
+                                saved[k_.strip()] = float(v_)
+                        est_ = r.get_beta_values()
+                        for k_, v_ in est_.items():
+                            if k_ not in saved or abs(saved[k_] - float(v_)) > 1e-9 * max(1.0, abs(float(v_))):
+                                ctx.fail('I03.saved', f'saved iteration file {fn} holds {k_} = {saved.get(k_)!r}, the estimate '
+                                                      f'of {k_} is {float(v_)!r}')
+                        ctx.probe('saved iteration file compared by name')
             for u, r in ((self.U[0], r0), (self.U[1], r1)):
                 est = r.get_beta_values()
                 for rb in r.data.betas:
